@@ -10,5 +10,5 @@ CONSTANTS
     AllowReg = FALSE
 SPECIFICATION FairSpec
 PROPERTIES WaitReturns
-INVARIANTS WaitNeverStuck
+INVARIANTS WaitNeverStuckE
 CHECK_DEADLOCK FALSE
